@@ -531,6 +531,7 @@ def export_markdown(stats, verbose=0, category_filter=None, merchant_filter=None
     lines.append('| Category | Subcategory | YTD | % |')
     lines.append('|----------|-------------|-----|---|')
     positive_cats = [(k, v) for k, v in by_category.items() if v['total'] > 0]
+    gross_spending = sum(d['total'] for d in by_merchant.values() if d['total'] > 0)
     for (cat, subcat), data in sorted(positive_cats, key=lambda x: x[1]['total'], reverse=True)[:15]:
         pct = (data['total'] / gross_spending * 100) if gross_spending > 0 else 0
         lines.append(f"| {cat} | {subcat} | {fmt(data['total'])} | {pct:.1f}% |")
